@@ -36,8 +36,16 @@ structure Oracle where
 
 def find (w : World) (id : Id) : Option Feat := List.find? (fun f => decide (f.id = id)) w
 
-/-- `FindLocationByID` -/
+/-- An element of a path is a point reference or an inline lat/lng. Inline points are carried in the
+reference list as pseudo-IDs of type 9: `(9, slot)` is "the point at location `slot`", never a feature. -/
+def isInline (id : Id) : Bool := decide (id.1 = 9)
+
+/-- `FindLocationByID` of a referenced point — or, for an inline element, the point itself
+(`pathPoints` / `ValidateArea` read `PointAt(i)` first and only look up references). Inline slots are
+numbered from 1000: the harness places inline points on a ring of their own, since the location of a
+point FEATURE goes through the point tag's text form and may lose its last digits: the two never coincide. -/
 def locOf (w : World) (id : Id) : Option Nat :=
+  if id.1 = 9 then some (1000 + id.2) else
   match find w id with
   | some ⟨_, .point (some k)⟩ => some k
   | _ => none
@@ -45,10 +53,13 @@ def locOf (w : World) (id : Id) : Option Nat :=
 /-- `pathPoints`: the locations of all points, or `none` when one is missing -/
 def pathSlots (w : World) (refs : List Id) : Option (List Nat) := refs.mapM (locOf w)
 
-/-- `Tags.ClosedPath` (for a path of at least one point): first and last reference are the same ID -/
+/-- `Tags.ClosedPath`: `Reference(0) == Reference(len(References()) - 1)` and valid — the second index
+is the NUMBER OF ID REFERENCES minus one (the last position only when every element is a reference);
+an inline element has no valid ID, so a path that starts with one is never "closed". -/
 def closedRefs (refs : List Id) : Bool :=
-  match refs.head?, refs.getLast? with
-  | some a, some b => decide (a = b)
+  let k := (refs.filter fun r => !isInline r).length
+  match refs.head?, (if k = 0 then none else refs[k - 1]?) with
+  | some a, some b => decide (a = b) && !isInline a
   | _, _ => false
 
 inductive PathVerdict where
@@ -237,7 +248,7 @@ def put : World → Feat → World
 def refsOf (f : Feat) : List Id :=
   match f.geo with
   | .point _ => []
-  | .path refs => refs
+  | .path refs => refs.filter fun r => !isInline r     -- `Tags.References()`: ID elements only
   | .area polys => polys.flatten
   | .other refs => refs
 
